@@ -88,6 +88,16 @@ Theorem c06_jws_curve_class :
     jws_sign prim r k = Err EValue /\ jws_verify prim r k mat siglen = Err EValue.
 Proof. exact jws_curve_class. Qed.
 
+(* conversely a suitable key is accepted (primitives behaving as [prim_std]; the key's
+   declared alg, when the entry point checks it, is this algorithm; matching material
+   and a signature of the curve's length): the Spec is not stricter than the code *)
+Theorem c06_jws_complete :
+  forall e alg r k siglen,
+    key_wf k -> find_jws alg = Some r -> alg <> "none" ->
+    jws_suitable alg (jws_is_sign e) k -> check_alg alg k = Ok tt -> siglen_ok k siglen ->
+    jws_run prim_std e SrcKey alg k true siglen = Ok tt.
+Proof. exact jws_complete. Qed.
+
 (* ---------- JWE ---------- *)
 (* jwe.encrypt_compact / decrypt_compact / encrypt_json / decrypt_json (flattened,
    general, one recipient), jwt.encode / decode with a JWERegistry; recipient key
@@ -282,6 +292,7 @@ Print Assumptions c06_jws_type_class.
 Print Assumptions c06_jws_key_ops_class.
 Print Assumptions c06_jws_public_cannot_sign.
 Print Assumptions c06_jws_curve_class.
+Print Assumptions c06_jws_complete.
 Print Assumptions c06_jwe.
 Print Assumptions c06_jwe_preattached_partial.
 Print Assumptions c06_jwe_preattached_use_refuted.
